@@ -242,3 +242,34 @@ def qed_generator(gamma, aem_of_a, nf):
         return num / den
 
     return F
+
+
+# ------------------------------------------------------------------------------------------------ short distances
+
+
+def singlet_ode_minus_one(gammas, a1, a0, nf):
+    """D = E(a1 <- a0) - 1 for a QCD tower, accurate *relative to D* also for |a1 - a0| << a0.
+
+    Integrates dD/ds = M(s) (1 + D), D(0) = 0, in s = ln(a/a0) up to ln(a1/a0) = log1p((a1 - a0)/a0), so that
+    neither the interval nor the result is obtained as a difference of O(1) numbers.
+    """
+    from scipy.integrate import solve_ivp
+
+    gammas = [np.asarray(g, dtype=np.complex128) for g in gammas]
+    n = len(gammas)
+    dim = gammas[0].shape[0]
+    bet = beta_qcd(nf, n)
+    s1 = math.log1p((a1 - a0) / a0)
+    eye = np.eye(dim, dtype=np.complex128)
+
+    def rhs(s, y):
+        a = a0 * math.exp(s)
+        m = sum(g * a**k for k, g in enumerate(gammas)) / sum(b * a**k for k, b in enumerate(bet))
+        return (m @ (eye + y.reshape(dim, dim))).reshape(-1)
+
+    if s1 == 0.0:
+        return np.zeros((dim, dim), dtype=np.complex128)
+    sol = solve_ivp(rhs, (0.0, s1), np.zeros(dim * dim, dtype=np.complex128), method="DOP853", rtol=1e-13, atol=1e-30)
+    if not sol.success:
+        raise RuntimeError(f"reference ODE failed: {sol.message}")
+    return sol.y[:, -1].reshape(dim, dim)
